@@ -94,6 +94,13 @@ def enumerated(tier, seed):
             yield dict(mode="memory", order=None, reuse=True, files=[f, f, f, f, f])
             g = _sized(kind, 1, slack, 50 + slack)
             yield dict(mode="memory", order=list(range(67, -1, -1)), reuse=True, files=[g] * 69)
+    # host route (every run re-reads the image and stores all files again): ASCII files whose length is a multiple of
+    # 256 - their last sector is full - and 256 bytes short of a granule multiple, so that a file read back one sector
+    # longer would need one granule more
+    for g in (1, 2, 5):
+        a256 = dict(_sized("ascii", g, 0, 60 + g), data=dict(n=g * 2304 - 256, k=60 + g, mode=2, head="", tail=""))
+        yield dict(mode="host", files=[a256, _sized("ml", 1, 3, 1), _sized("basic", 2, 0, 2), dict(a256, name="SECOND"), _sized("ascii", 68 - 2 * g - 3, -1, 3),
+                                       _sized("ml", 1, 0, 4)])
     yield dict(mode="host", files=[_sized("ascii", 30, 0, 1), _sized("ascii", 38, -1, 2), _sized("ml", 1, 0, 3)])
     yield dict(mode="host", blank_start=True, files=[_sized("ml", 1, 5, 1), _sized("basic", 2, 0, 2), _sized("ascii", 65, 0, 3), _sized("ml", 1, 0, 4)])
     yield dict(mode="host", files=[_sized("ml", 28, 0, 1), _sized("ml", 28, 0, 2), _sized("ml", 13, 0, 3), _sized("ml", 12, 0, 4), _sized("ascii", 1, 0, 5)])
